@@ -122,6 +122,18 @@ def run(ctx):
                 ctx.report(c['key'], 'hypercomplex.span: ' + c['oracle'], {'kind': 'span-args', 'case': c})
     ctx.oblige('property oracle: %d pairs of span() calls with the same ndarray bound objects (float64 and int64, lb != 0) leave their '
                'arguments bit-identical and return the same, in-range result the second time' % len(data.get('args', [])), n_args == 0, '')
+    n_hist = 0
+    hist_keys = set()
+    for c in data.get('history', []):
+        if c['oracle']:
+            n_hist += 1
+            if c['key'] not in hist_keys and len(hist_keys) < 4:
+                hist_keys.add(c['key'])
+                ctx.report(c['key'], 'HyperSpace after other spaces in the same process: ' + c['oracle'], {'kind': 'history', 'case': c})
+    ctx.oblige('property oracle: %d histories (a SearchSpace/TreeSpace with the same n_variables and a non-unit box built, optionally run, '
+               'before -- or after -- the HyperSpace): agents keep private zeros/ones bounds, agent.check_limits() lands in [0,1], and '
+               'HS/SA/BHA/ABC/CS/FPA/BA/IHS tasks (%d objective evaluations) stay in the unit box'
+               % (len(data.get('history', [])), sum(c.get('evaluations', 0) for c in data.get('history', []))), n_hist == 0, '')
     n_sp = 0
     for c in data['space']:
         if c['oracle'] and n_sp < 3:
@@ -144,8 +156,11 @@ def run(ctx):
     for c in data.get('args', []):
         k = 'span-twice/%s/%s' % (c['bounds_class'], c['dtype'])
         dist[k] = dist.get(k, 0) + 1
+    for c in data.get('history', []):
+        k = 'history/%s/%s' % (c['order'], c['optimizer'])
+        dist[k] = dist.get(k, 0) + 1
     for c in data['space']:
-        k = 'space/%s/%s' % (c['bounds'], c['draw'])
+        k = 'space/%s/%s%s' % (c['bounds'], c['draw'], '/int' if c.get('int') else '')
         dist[k] = dist.get(k, 0) + 1
     for c in data['runs']:
         k = 'run/%s' % c['optimizer']
@@ -156,8 +171,9 @@ def run(ctx):
                        'huge(8e307)/overflow(ub-lb=inf)/degenerate(lb=ub)/tiny/offset/int-lists/wide(1e+-20) x array classes zeros/ones/corner/'
                        'denormal/near-ones/dyadic/mixed/uniform, each with a norm-only partner (other rows replaced, exact rows permuted) and a '
                        'shrunk-row partner; span called twice with the same float64/int64 ndarray bound objects (arguments bit-identical afterwards, second result = first and in range); non-trivial = anything but a uniform array with generic bounds; HyperSpace: scripted uniform draws at '
-                       'both ends, positions with +-inf/huge/-0.0/denormal/bound values; 6-iteration PSO/SCA tasks')
-    extra = len(data.get('args', [])) + len(data['space']) + len(data['runs'])
+                       'both ends, positions (float, every 5th case integer dtype) with +-inf/huge/-0.0/denormal/bound values; 6-iteration PSO/SCA tasks; histories: SearchSpace/TreeSpace (boxes [-10,10],[50,60],[-1e6,-5e5],[0.25,0.75],[-3,0.5]) built/run before or after '
+                       'the HyperSpace with the same n_variables, then agent bounds / sharing / agent.check_limits / 8 agent-clipping optimizers')
+    extra = len(data.get('args', [])) + len(data.get('history', [])) + len(data['space']) + len(data['runs'])
     ctx.count(data['span_cases'] + extra, data['nontrivial'] + extra)
     ctx.cov['exhaustive'] = False
     if not ok:
